@@ -338,7 +338,8 @@ pub fn child(args: &[String]) -> i32 {
     let chunks: Vec<Vec<u8>> = args.get(3).map(|s| s.split(',').filter(|x| !x.is_empty() || true).map(unhex).collect()).unwrap_or_default();
     let tmp = sut::TempFiles::new(&[prefix.as_slice()]);
     let path = tmp.paths[0].clone();
-    let tables = sut::make_tables("CREATE TABLE t(line = '(?s)^(.*)$', line[1] => x TEXT);").unwrap();
+    let def_text = args.get(6).map(|h| String::from_utf8_lossy(&unhex(h)).to_string()).unwrap_or_else(|| "CREATE TABLE t(line = '(?s)^(.*)$', line[1] => x TEXT);".to_string());
+    let tables = sut::make_tables(&def_text).unwrap();
     let stmt_text = args.get(4).map(|h| String::from_utf8_lossy(&unhex(h)).to_string()).unwrap_or_else(|| "SELECT input FROM t".to_string());
     let interrupt_at: i64 = args.get(5).and_then(|x| x.parse().ok()).unwrap_or(-1);
     let st = sut::parse(&stmt_text).unwrap();
@@ -378,7 +379,7 @@ pub fn child(args: &[String]) -> i32 {
     };
     let r = catch(|| ex.execute());
     verif_hooks::clear();
-    println!("FOLLOW-APPENDED {}", APPENDED.load(std::sync::atomic::Ordering::SeqCst));
+    println!("\nFOLLOW-APPENDED {}", APPENDED.load(std::sync::atomic::Ordering::SeqCst));
     match r {
         Ok(Ok(())) => println!("FOLLOW-END ok"),
         Ok(Err(e)) => println!("FOLLOW-END error {}", e),
@@ -394,9 +395,18 @@ thread_local! {
 
 /// run the real FollowFileExecutor in a child process; returns (delivered `input` values, end marker, child ok)
 pub fn follow_child(head: bool, prefix: &[u8], chunks: &[Vec<u8>], stmt: &str, interrupt_at: i64) -> (Vec<String>, String, bool) {
+    follow_child_def(head, prefix, chunks, stmt, interrupt_at, None)
+}
+
+/// like follow_child, with a table definition of the caller's choice
+pub fn follow_child_def(head: bool, prefix: &[u8], chunks: &[Vec<u8>], stmt: &str, interrupt_at: i64, def: Option<&str>) -> (Vec<String>, String, bool) {
     let exe = std::env::current_exe().unwrap();
     let ch: Vec<String> = chunks.iter().map(|c| hex(c)).collect();
-    let out = std::process::Command::new(exe).args(["--child", "follow", if head { "1" } else { "0" }, &hex(prefix), &ch.join(","), &hex(stmt.as_bytes()), &interrupt_at.to_string()]).output().expect("spawn follow child");
+    let mut args: Vec<String> = vec!["--child".into(), "follow".into(), if head { "1".into() } else { "0".into() }, hex(prefix), ch.join(","), hex(stmt.as_bytes()), interrupt_at.to_string()];
+    if let Some(d) = def {
+        args.push(hex(d.as_bytes()));
+    }
+    let out = std::process::Command::new(exe).args(&args).output().expect("spawn follow child");
     let stdout = String::from_utf8_lossy(&out.stdout).to_string();
     let mut delivered = Vec::new();
     let mut end = String::new();
